@@ -6,6 +6,7 @@ import (
 	"crypto/sha256"
 	"encoding/json"
 	"fmt"
+	"github.com/dcaiafa/lox/verif/internal/root"
 	"os"
 	"sort"
 	"strings"
@@ -131,12 +132,12 @@ func moSpecs(quick bool) []moSpec {
 		files, _ := b.render()
 		specs = append(specs, moSpec{Name: fmt.Sprintf("c17base%d", bi), Lox: files, Go: nil})
 	}
-	if m := rd("/repo/examples/calc/calc.lox"); m != "" {
+	if m := rd(root.RepoPath("examples/calc/calc.lox")); m != "" {
 		specs = append(specs, moSpec{Name: "examples/calc", Lox: map[string]string{"calc.lox": m}})
 	}
 	if !quick {
-		specs = append(specs, moSpec{Name: "internal/parser", Lox: map[string]string{"parser.lox": rd("/repo/internal/parser/parser.lox")}})
-		specs = append(specs, moSpec{Name: "examples/jsonc", Lox: map[string]string{"jsonc.lox": rd("/repo/examples/jsonc/jsonc.lox")}})
+		specs = append(specs, moSpec{Name: "internal/parser", Lox: map[string]string{"parser.lox": rd(root.RepoPath("internal/parser/parser.lox"))}})
+		specs = append(specs, moSpec{Name: "examples/jsonc", Lox: map[string]string{"jsonc.lox": rd(root.RepoPath("examples/jsonc/jsonc.lox"))}})
 	}
 	return specs
 }
